@@ -16,6 +16,10 @@ A case is a flowsheet:
 (stream ids: the streams of the `edge` lines in order, then the remaining ports unit by unit, inlets first)
     outside 2              the last 2 units of the `units` line belong to the flowsheet but are NOT handed to
                            from_units (it gets a section of the flowsheet: streams from / to them are feeds / products)
+    mark 3 / unmark 3      thermosteam.network.mark_disjunction / unmark_disjunction on stream 3 (an outlet of a unit), executed in
+                           line order before the round's from_units; marking is idempotent and unmarking removes the mark, so a
+                           round is judged as the plain flowsheet exactly when every marked stream has been unmarked again;
+    mbuild                 from_units while a stream is marked: only the captured walks / sorts are compared, nothing is judged
     rewire                 starts another round on the SAME unit and stream objects: the `edge` / `order` lines that
                            follow describe the new connectivity; the adapter empties every port and re-pipes the
                            existing stream objects (a stream keeps its role — product, feed, internal, same source
@@ -56,7 +60,9 @@ ASSUMPTIONS = [
     'reduce_recycles) is not modelled; on cyclic flowsheets its output is validated per run by validNetwork',
     'Network.units of every (sub-)network equals the units of its flattened path when Network.sort runs (monitored)',
     'Python sets are modelled as duplicate-free lists, compared after sorting',
-    'no interaction / universal / auxiliary units, no disjunctions, no missing streams, no explicit feed priorities',
+    'no interaction / universal / auxiliary units, no missing streams, no explicit feed priorities; disjunctions only as '
+    'histories of mark_disjunction / unmark_disjunction: a build is judged only when every marked stream has been unmarked '
+    'again (the plain flowsheet of the property); builds while a stream is marked are compared walk by walk, not judged',
 ]
 TRUSTED = ['Lean 4.33 kernel', 'correspondence harness harness/props/c19.py + Driver/C19.lean',
            'generator reach (see histogram)', 'Python twin of validNetwork agrees with the Lean checker (compared every case)']
@@ -79,6 +85,7 @@ class Recorder:
         self.in_from_units = False
         self.fu_recycle = False
         self.foreign = False
+        self.marked = set()          # stream ids that are disjunctions by the documented semantics of mark / unmark
 
     def sid(self, s):
         return s.n
@@ -226,7 +233,7 @@ def parse_case(ops):
             fmass[tuple(int(x) for x in t[1].split('.'))] = int(t[2])
         elif t[0] == 'order':
             raw[-1][1] = [int(x) for x in t[1].split(',')]
-        elif t[0] in ('psort', 'pdfs'):
+        elif t[0] in ('psort', 'pdfs', 'mark', 'unmark', 'mbuild'):
             raw[-1][2].append(line)
     n = len(shape)
     m = n - outside if 0 <= outside < n else n          # units 0..m-1 are handed to from_units
@@ -557,7 +564,21 @@ def run_round(rnd, rec, units, streams, shape, edges, order, probes, failures, t
     try:
         with warnings.catch_warnings():
             warnings.simplefilter('ignore')
-            for line in probes: run_probe(line, given, streams, rec)
+            for line in probes:
+                t = line.split()
+                if t[0] in ('mark', 'unmark'):
+                    k = int(t[1])
+                    if k < len(streams) and streams[k]._source is not None:
+                        if t[0] == 'mark': net.mark_disjunction(streams[k]); rec.marked.add(k)
+                        else: net.unmark_disjunction(streams[k]); rec.marked.discard(k)
+                        tags.append('disjunction:' + t[0])
+                elif t[0] == 'mbuild':
+                    if rec.marked:
+                        try: net.Network.from_units([given[i] for i in order])
+                        except Exception: pass
+                        tags.append('disjunction:build-while-marked')
+                else:
+                    run_probe(line, given, streams, rec)
             rec.last_warn = 0; rec.fu_recycle = False; rec.in_from_units = True
             nw = net.Network.from_units([given[i] for i in order])
     except Exception as e:      # the property promises a path: an exception is a failure of it
@@ -565,6 +586,12 @@ def run_round(rnd, rec, units, streams, shape, edges, order, probes, failures, t
     finally:
         REC = None
         rec.in_from_units = False
+    if rec.marked:
+        # a stream is (still) a disjunction: the flowsheet is not the plain one the property speaks of; the walks and
+        # sorts of this build were compared line by line, the result is not judged
+        tags.append('disjunction:round-not-judged')
+        return
+    if any(l.startswith(('mark', 'unmark')) for l in probes): tags.append('disjunction:judged-after-unmark')
     edges_r = real_edges(given)
     rm = reach_map(given, edges_r)
     cyclic = any(u in rm[u] for u in given)
@@ -630,16 +657,20 @@ def run_impl(case: Case) -> ImplResult:
     n = len(shape)
     if n == 0:
         return ImplResult(model_in=[], outs=[], failures=[], tags=['empty'], nontrivial=None)
+    del net.disjunctions[:]               # the registry is module-level state: every case starts from an empty one
     units, streams = build(shape, rounds[0][0], fmass)
     rec = Recorder(units[:m])
     failures, tags = [], []
     prev = None
     for rnd, (edges, order, probes) in enumerate(rounds):
         if rnd:
+            for k in sorted(rec.marked): net.unmark_disjunction(streams[k])     # marks are tied to ports: lift them first
+            rec.marked.clear()
             rewire(units, streams, shape, prev, edges)
             tags.append('rewired')
         run_round(rnd, rec, units, streams, shape, edges, order, probes, failures, tags, m)
         prev = edges
+    del net.disjunctions[:]
     tags.append(f'n={m}'); tags.append(f'rounds={len(rounds)}'); tags.append(f'orders-of-flowsheet={case.meta.get("orders", 1)}')
     tags.extend(sorted(rec.tags))
     key = (tuple(shape), m, tuple(sorted(fmass.items())), tuple((tuple(e), tuple(o)) for e, o, _ in rounds))
@@ -782,6 +813,22 @@ def mutate_edges(rng, shape, edges, m=None):
     return None
 
 
+DISJ_PATTERNS = [
+    ['mark a', 'unmark a'], ['mark a', 'mark a', 'unmark a'], ['mark a', 'mbuild', 'unmark a'],
+    ['mark a', 'mark b', 'unmark b', 'unmark a'], ['mark a', 'mark a', 'unmark a', 'unmark a'], ['unmark a'],
+    ['mark a', 'mbuild', 'mark a', 'unmark a'], ['mark a', 'unmark a', 'mark b', 'mark b', 'unmark b'], ['mark a'],
+    ['mark a', 'mark b', 'unmark a'],
+]
+
+
+def gen_disjunctions(rng, edges):
+    """a history of mark_disjunction / unmark_disjunction calls on streams between units (ids = position in `edges`)"""
+    if not edges: return []
+    a = rng.randrange(len(edges)); b = rng.randrange(len(edges))
+    ids = {'a': str(a), 'b': str(b)}
+    return [' '.join(ids.get(w, w) for w in l.split()) for l in rng.choice(DISJ_PATTERNS)]
+
+
 def orders(rng, n, k):
     """k distinct orders of n units (all of them if k >= n!)"""
     if math.factorial(n) <= k:
@@ -884,6 +931,7 @@ def generate(rng, tier, index, nworkers):
                     if rng.random() < 0.5: rng.shuffle(o2)
                     more.append((nxt, o2)); cur = nxt
             probes = gen_probes(rng, shape, edges) if m == n else []
+            if rng.random() < 0.12: probes = probes + gen_disjunctions(rng, edges)
             yield with_meta(make_case(shape, edges, fmass, o, more, probes, n - m), len(os_))
             produced += 1
 
@@ -916,6 +964,9 @@ def corpus():
           'edge 8.0 3.0', 'edge 3.0 4.0', 'edge 0.1 2.1', 'edge 5.0 1.0', 'edge 2.0 0.1', 'edge 0.0 7.0'),
         C('units 3:2 3:3 2:1 3:3 3:3', 'outside 1', 'edge 3.0 0.2', 'edge 4.1 2.0', 'edge 1.2 0.0', 'edge 1.0 2.1', 'edge 0.1 3.0',
           'edge 2.0 1.2', 'edge 3.2 4.0', 'order 2,3,1,0'),
+        # a stream marked as a disjunction twice and unmarked once: the flowsheet is the plain one again
+        C('units 2:1 1:2', 'edge 0.0 1.0', 'edge 1.1 0.1', 'mark 1', 'mark 1', 'unmark 1', 'order 0,1'),
+        C('units 1:1 1:1 1:1', 'edge 0.0 1.0', 'edge 1.0 2.0', 'mark 0', 'mbuild', 'unmark 0', 'order 2,1,0'),
         # histories on the same objects: a train A → B → C, then B and C swapped, then swapped back
         C('units 1:1 1:1 1:1', 'edge 0.0 1.0', 'edge 1.0 2.0', 'order 0,1,2',
           'rewire', 'edge 0.0 2.0', 'edge 2.0 1.0', 'order 0,1,2',
